@@ -59,10 +59,16 @@ def infer_score_with_chords_durations(sequence, chords, instruments, bars):
                 if len(voice_notes) > 0:
                     instrument = instruments.get(voice_notes[0].channel, 'piano')
                     voice_name = instrument + '__' + str(offsets_voices.get(track, 0) + int(voice))
-                    cont = continuations.get(voice_name, None)
+                    cont = continuations.pop(voice_name, None)
                     chord_dict[voice_name], cont = _parse_voice(voice_notes, chord,time_start, time_end, 1, cont, is_drum=instrument.startswith('drum'))
                     if cont is not None:
                         continuations[voice_name] = cont
+
+        # A note held into this bar in a voice where nothing new starts: keep the tie going
+        for voice_name in [v for v in continuations if v not in chord_dict]:
+            chord_dict[voice_name], cont = _parse_voice([], chord, time_start, time_end, 1, continuations.pop(voice_name))
+            if cont is not None:
+                continuations[voice_name] = cont
 
         final_chord = chord(**chord_dict)
         if len(chord_dict) == 0:
@@ -233,7 +239,7 @@ def _parse_voice(voice_notes, chord, bar_time_start, bar_time_end, tick_value, c
 
     melody = []
     return_cont = None
-    local_time_end = voice_notes[0].start
+    local_time_end = voice_notes[0].start if len(voice_notes) > 0 else bar_time_start
     if cont is not None:
         if cont.duration > 0:
             melody.append(cont)
